@@ -61,12 +61,12 @@ structure FacAct (R : Type) where
   r : Nat
   c : Nat
   a : MatF R
-  act : Nat → MatF R → MatF R
+  act : Nat → MatF R → MatV R
 
 /-- the action is multiplication by `a` -/
 def FacAct.Ok [NonUnitalNonAssocSemiring R] (M : FacAct R) : Prop :=
   ∀ (b : Nat) (m : MatF R) (p f : Nat), p < M.r → f < b →
-    M.act b m p f = ∑ q ∈ range M.c, M.a p q * m q f
+    (M.act b m).f p f = ∑ q ∈ range M.c, M.a p q * m q f
 
 /-- one step of the Kronecker loop: apply the factor `M` on axis `i`
 (`moveaxis(ev, i, 0)`, reshape to `(c, -1)`, `M @ ·`, reshape back, `moveaxis(·, 0, i)`). -/
@@ -74,7 +74,7 @@ def kronStep [Zero R] (M : FacAct R) (ev : Tensor R) (i : Nat) : Tensor R :=
   let front := moveToFront ev i
   let mat := toMat front
   let prod := M.act front.shape.tail.prod mat
-  forceT (moveFromFront (ofMat M.r front.shape.tail prod) i)
+  forceT (moveFromFront (ofMat M.r front.shape.tail prod.f) i)
 
 theorem insertAt_getD_eraseIdx (idx : List Nat) (i : Nat) (h : i < idx.length) :
     insertAt i (idx.getD i 0) (idx.eraseIdx i) = idx := by
